@@ -1,28 +1,28 @@
 #!/usr/bin/env python3
 """Generates /verif/MANIFEST.json from the table below."""
 import json, subprocess
-PBT = "property-based testing (proptest-generated cases, constructive generators, own shrink loop)"
+PBT = "property-based testing (proptest-generated cases, constructive generators, own shrink loop; libFuzzer campaign in the thorough tier where the case is a program x history value or a DAG op sequence)"
 checks = {
- "C01": ("exploration", "generated task programs x histories, every returning require compared with a from-scratch evaluator (output and whole resource state); differential oracle", PBT + "; model-based differential against a from-scratch evaluator", "§7 C01"),
- "C02": ("exploration", "trace acceptor over tracker events + task-side log: validation order, justification of every execution, at-most-once, idempotence probes, exact-checker minimality", PBT + "; trace acceptor over generated histories", "§7 C02"),
+ "C01": ("exploration", "generated task programs x histories (top-down sessions, external changes, task failures, and bottom-up sessions with arbitrary possibly incomplete reports as unjudged history), every returning require compared with a from-scratch evaluator (output and whole resource state); differential oracle", PBT + "; model-based differential against a from-scratch evaluator", "§7 C01"),
+ "C02": ("exploration", "trace acceptor over tracker events + task-side log: validation order, justification of every execution (checker errors included), at-most-once, idempotence probes, exact-checker minimality; equivalence and non-equivalence checkers", PBT + "; trace acceptor over generated histories", "§7 C02"),
  "C03": ("exploration", "complete-report bottom-up histories followed by probe sessions requiring every task: nothing known executes, outputs/resources equal from-scratch; acceptor demands complete checking/scheduling", PBT + "; probe sessions + from-scratch differential", "§7 C03"),
  "C04": ("exploration", "bottom-up trace acceptor: executions only of justified scheduled tasks or first-time tasks, once, never before a scheduled dependency, consistent checks never schedule", PBT + "; trace acceptor", "§7 C04"),
  "C05": ("exploration", "well-formed programs with one injected read without the required task dependency; access-time oracle on the task-side log and shadow record, in every order, session split and build mode", PBT + " with injected violations; task-side/shadow-record oracle", "§7 C05"),
- "C06": ("exploration", "well-formed programs with an injected second writer (context write and written_to); write function must not run / call must not return / abort must be an overlap error; negative half: single writers re-executed never overlap", PBT + " with injected violations; task-side/shadow-record oracle", "§7 C06"),
+ "C06": ("exploration", "well-formed programs with an injected second writer (context write and written_to); write function must not run / call must not return / abort must be an overlap error; negative half: single writers re-executed never overlap, also after builds aborted by task failures and injected panics and rebuilt top-down or bottom-up", PBT + " with injected violations; task-side/shadow-record oracle", "§7 C06"),
  "C07": ("exploration", "well-formed programs with an injected (optionally value-guarded) back-require closing a cycle of any length; interpreter stack is ground truth: nothing may execute or return after requiring an executing task, abort must be a cycle error", PBT + " with injected violations; task-side stack oracle with recursion sentinel", "§7 C07"),
- "C08": ("exploration", "read-only store dump (hook) compared edge by edge (kind, target, checker text, stamp text, order) and output with the dependencies the last execution created per the task-side log, after every session; plus event-level consequences", PBT + "; store dump vs shadow record (hook gohla_pie_verif)", "§7 C08"),
- "C09": ("exploration", "instrumented checkers/handles log every stamp and check call; timeliness and identity of stamps and decision fidelity checked on every generated history", PBT + "; instrumentation oracle", "§7 C09"),
+ "C08": ("exploration", "read-only store dump (hook) compared edge by edge (kind, target, checker text, stamp text, order) and output with the dependencies the last execution created per the task-side log, after every session, also across diagnosed aborts (state-dependent violations) and injected panics; plus event-level consequences", PBT + "; store dump vs shadow record (hook gohla_pie_verif)", "§7 C08"),
+ "C09": ("exploration", "instrumented checkers/handles log every stamp and check call; timeliness and identity of stamps and decision fidelity checked on every generated history; checker zoo: exact, parity, existence, always, tolerance band and lower bound (non-transitive / non-symmetric relations) on reads, writes and requires", PBT + "; instrumentation oracle", "§7 C09"),
  "C10": ("exploration", "generated operation sequences against a naive reference graph plus exhaustive small-scope enumeration", PBT + " over operation sequences; reference model; small-scope exhaustive enumeration", "§7 C10"),
- "C11": ("exploration", "all queries for all node pairs after every generated operation against the reference graph, plus exhaustive small scopes", PBT + " over operation sequences; reference model; small-scope exhaustive enumeration", "§7 C11"),
- "C12": ("exploration", "exhaustive over all pairs of an 8-value Result domain x 5 checkers x 2 routes, plus generated pairs over larger types; oracle = documented relation", PBT + " + exhaustive small domain; relational oracle", "§7 C12"),
- "C13": ("exploration", "generated (state, state, checker) triples on a real temp directory with explicitly set mtimes; stamp-route agreement, exact detection of the observed aspect, reader position, writer semantics", PBT + " over filesystem states (explicit state machine, explicit mtimes)", "§7 C13"),
- "C14": ("exploration", "generated operation sequences over four key types with equal raw keys and raw typed state calls on four resource types against a reference map and slot model, everything compared after every op", PBT + " over operation sequences; reference model", "§7 C14"),
- "C15": ("exploration", "generated key lists from six same-bytes task types and two resource types inside a real Pie instance plus all-pairs dyn KeyObj equality/hash", PBT + "; (type,value) identity model", "§7 C15"),
+ "C11": ("exploration", "all queries for all node pairs after every generated operation against the reference graph; generated single queries and sparse sweeps (state carried between queries); exhaustive small scopes incl. all mutator/reachability-query interleavings", PBT + " over operation sequences; reference model; small-scope exhaustive enumeration", "§7 C11"),
+ "C12": ("exploration", "exhaustive over all pairs of an 8-value Result domain and of the zero-sized-payload domains x 5 checkers x 2 routes, plus generated pairs over larger types (strings, tuples, wide arrays, unit structs, types whose Debug and Eq disagree); oracle = documented relation", PBT + " + exhaustive small domain; relational oracle", "§7 C12"),
+ "C13": ("exploration", "generated (state, state, checker) triples and sequences of 2-6 states on one Pie resource state, on a real temp directory with explicitly set mtimes (whole-second and sub-second parts); stamp-route agreement, exact detection of the observed aspect for every earlier stamp in every later state, reader position, writer semantics", PBT + " over filesystem states (explicit state machine, explicit mtimes)", "§7 C13"),
+ "C14": ("exploration", "generated operation sequences over four key types with equal raw keys (dynamic keys over newtypes, u8, zero-sized types and Box wrappers) and raw typed state calls on four resource types against a reference map and slot model, everything compared after every op", PBT + " over operation sequences; reference model", "§7 C14"),
+ "C15": ("exploration", "generated key lists from ten same-bytes task types (newtypes, Box/Rc/Arc wrappers, zero-sized types, a task resolving same-hash resources back to back) and four resource types inside a real Pie instance (top-down and bottom-up) plus all-pairs dyn KeyObj equality/hash", PBT + "; (type,value) identity model", "§7 C15"),
  "C16": ("exploration", "every generated case replayed on fresh instances in-process and in fresh processes; complete event/operation log must be identical", PBT + "; replay-equality oracle within and across processes", "§7 C16"),
  "C17": ("exploration", "stack-machine nesting check, task-side/tracker agreement, composite stream equality, EventTracker projection; plus API-level call sequences against reference helpers", PBT + "; stack-machine invariant over event streams; reference implementations of helpers", "§7 C17"),
- "C18": ("fault_enumeration", "generated fault sets for Faulty checkers over generated histories: errors reported exactly, owners re-executed/scheduled, no abort, results equal from-scratch", PBT + " with injected checker faults (random and enumerated fault subsets)", "§7 C18"),
- "C20": ("exploration", "(a) static-role programs never abort; (b) role-changing programs well-formed in every state: an abort is spurious unless the from-scratch evaluator of all known tasks aborts too; four stale-edge patterns are recorded findings with model-only signatures", PBT + "; from-scratch evaluator as violation oracle; role-changing program generator", "§7 C20"),
- "C19": ("fault_enumeration", "panic injected at generated and, for sampled cases, every operation point of a build; later builds must equal from-scratch and never fail internally", PBT + " with injected aborts; crash-point enumeration for sampled cases", "§7 C19"),
+ "C18": ("fault_enumeration", "generated fault sets for Faulty checkers over generated histories: errors reported exactly, owners re-executed/scheduled and nothing else (full trace acceptor under faults), no abort, results equal from-scratch", PBT + " with injected checker faults (random and enumerated fault subsets)", "§7 C18"),
+ "C20": ("exploration", "(a) static-role programs never abort, also in bottom-up builds after aborted builds; (b) role-changing programs and programs with one state-dependent violation: an abort is spurious unless the from-scratch evaluator of all known tasks aborts too; stale-edge patterns are recorded findings with signatures over the model and the task-side record", PBT + "; from-scratch evaluator as violation oracle; role-changing program generator", "§7 C20"),
+ "C19": ("fault_enumeration", "panic injected at generated and, for sampled cases, every operation point of a build, task failures, and diagnosed violations that exist only in some states (cause removed or not afterwards); later top-down builds must equal from-scratch or abort for a violation a from-scratch build confirms, and never fail internally", PBT + " with injected aborts; crash-point enumeration for sampled cases", "§7 C19"),
 }
 notes = {}
 all_props = [f"C{i:02d}" for i in range(1, 21)]
@@ -38,7 +38,7 @@ m = {
  },
  "engines": [{"name": "pv", "path": "harness", "serves_properties": sorted(checks), "kind_free_text": "Rust crate: proptest-driven constructive generators (task-program language, DAG op sequences), from-scratch evaluator, shadow dependency record, trace acceptors, instrumented resource/checkers/tracker, own shrink loop, JSON replay files"}],
  "checks": [],
- "notes": "Known findings are listed in known_findings.json (C03-F1, C05-F1, C08-F1/F2, C20-F1..F4); fix: commits in /repo: b2681e4 (D1 add_edge order), dffaa25 (D3 reserved edge after abort), 267eae4 (D4 directory hash), 148a41c (D2 is_build_end). See DESIGN.md.",
+ "notes": "Known findings are listed in known_findings.json (C03-F1, C05-F1, C08-F1/F2, C19-F1/F2, C20-F1..F5); fix: commits in /repo: b2681e4 (D1 add_edge order), dffaa25 (D3 reserved edge after abort), 267eae4 (D4 directory hash), 148a41c (D2 is_build_end). See DESIGN.md.",
  "not_applicable": [],
 }
 for p in all_props:
